@@ -41,7 +41,8 @@ THEOREMS = [
     "ESV.C10.rejects_jump_undefined", "ESV.C10.rejects_jump_undefined_in_macro",
     "ESV.C10.rejects_bad_first_routine_id", "ESV.C10.rejects_fixed_routine_target",
     "ESV.C10.error_kinds_documented", "ESV.C10.world_error_kinds_documented",
-    "ESV.C10.rejects_missing_import", "ESV.C10.rejects_failing_import", "ESV.C10.rejects_cyclic_import",
+    "ESV.C10.resolve_direct_none", "ESV.C10.resolve_lookup_none", "ESV.C10.resolve_lookup_first", "ESV.C10.imports_resolved_independently",
+    "ESV.C10.rejects_missing_import_at", "ESV.C10.rejects_missing_import", "ESV.C10.rejects_failing_import", "ESV.C10.rejects_cyclic_import",
     "ESV.C10.rejects_routines_in_import", "ESV.C10.rejects_ssbscript_import",
     "ESV.C10.core_rejects_break_outside", "ESV.C10.core_rejects_continue_outside", "ESV.C10.core_rejects_break_loop_outside",
     "ESV.C10.core_rejects_switch_ends_empty", "ESV.C10.core_rejects_two_defaults", "ESV.C10.core_rejects_label_in_with",
@@ -209,6 +210,14 @@ def part_a(run: core.Run, pool: core.Pool, drv_ok: bool, jobs: int, n_invalid: i
         w = invalid.gen_world(rng, invalid.WORLD_KINDS[i % len(invalid.WORLD_KINDS)])
         w["texts"] = invalid.world_texts(w)
         worlds.append(w)
+    # import lists: found / missing statements of every style at every position, also inside imported files
+    missing_stats: Counter = Counter()
+    for i in range(n_worlds * 3):
+        w = invalid.gen_import_world(rng)
+        w["texts"] = invalid.world_texts(w)
+        worlds.append(w)
+        for m in w["info"]:
+            missing_stats[f"{'main' if m['depth'] == 0 else 'imported'}:{m['pos']}:{m['style']}:after={m['after']}:lookups={m['lookups']}"] += 1
     wres = run_all(pool, "harness.impl_c10:worlds_many", "harness.impl_c10:compile_world",
                    [{"files": w["texts"], "root": w["root"], "lookup": w["lookup"]} for w in worlds], 10, 120, 30)
     per_shape: Counter = Counter()
@@ -234,10 +243,26 @@ def part_a(run: core.Run, pool: core.Pool, drv_ok: bool, jobs: int, n_invalid: i
         if bad:
             run.violation(bad[0], f"import world {w['kind']}: {bad[1]}", {"world": w["texts"], "root": w["root"], "lookup": w["lookup"], "impl": o})
         elif w["expect_reject"] and o.get("ok"):
+            if w["kind"] == "import_list":
+                m = w["info"][0]
+                run.violation("missing_import_accepted", f"an import world with a missing import ({m['style']} style, {m['pos']} statement of the list"
+                              f"{' of an imported file' if m['depth'] else ''}, after a {m['after']} import, {m['lookups']} lookup paths) compiles",
+                              {"world": w["texts"], "root": w["root"], "lookup": w["lookup"], "missing": w["info"], "impl": o})
+                continue
             run.violation(w["kind"] + "_accepted", f"import world of kind {w['kind']} compiles", {"world": w["texts"], "root": w["root"], "lookup": w["lookup"], "impl": o})
     stats["a_programs"] = len(cases)
     stats["a_invalid"] = sum(1 for c in cases if c["shapes"])
     stats["a_worlds"] = len(worlds)
+    stats["a_import_lists"] = sum(1 for w in worlds if w["kind"] == "import_list")
+    stats["a_import_lists_with_missing"] = sum(1 for w in worlds if w["kind"] == "import_list" and w["expect_reject"])
+    pos: Counter = Counter()
+    for k, v in missing_stats.items():
+        a = k.split(":")
+        pos[f"{a[0]}:{a[1]}"] += v
+        pos["style " + a[2]] += v
+        pos[a[3]] += v
+    stats["a_missing_import_positions"] = dict(sorted(pos.items()))
+    stats["a_missing_import_cells"] = len(missing_stats)
     stats["a_per_shape"] = dict(sorted(per_shape.items()))
     stats["a_classes"] = {f"{k[0]} -> {k[1]}": v for k, v in sorted(classes.items())}
     stats["a_sites"] = dict(sites.most_common())
@@ -304,6 +329,7 @@ def gen_part_b(rng: random.Random, n_tok: int, tier: str) -> list[dict]:
     cases: list[dict] = [dict(c, kind="corpus_slow") for c in SLOW_CORPUS] + [dict(c, kind="corpus") for c in CORPUS]
     cases += corrupt.degenerate(rng)
     cases += corrupt.headers(rng)
+    cases += corrupt.semantic_sites(rng)
     cases += corrupt.numbers(rng)
     ssbs, ssbs_texts = corrupt.ssbscript(rng, 25 if tier == "quick" else max(200, n_tok // 40))
     cases += ssbs
@@ -421,7 +447,7 @@ def run(run: core.Run) -> int:
         "Static.check models the rejection sites, not the back end: the order check on op offsets (routines written twice or out of id order, "
         "SsbCompilerError) and LabelFinalizer are outside the model; generated programs write each id once, ascending",
         "the order in which the macros of one file are compiled (macro resolution order) is not modelled: generated macro call graphs are forests",
-        "import paths are resolved by the harness (posix normalisation, lookup directories); os.path.realpath/symlinks are not modelled",
+        "the harness does the path arithmetic of imports (directory of the importing file, lookup paths, posix normalisation); which candidate is a file and which lookup path wins is decided by the model; os.path.realpath/symlinks are not modelled",
         "worker processes run compile() with Python's default recursion limit (1000) and RLIMIT_AS 1500 MB",
     ])
 
